@@ -19,7 +19,7 @@ use std::time::Duration;
 
 pub const META: Meta = Meta {
     level: "exploration",
-    rule: "every address list of length <= 3 (quick) / <= 4 (thorough) over 12 address shapes {ip4/tcp, ip6/udp/quic-v1, dns4 plain, dns4 with space, with quote, with backslash, with space+quote+backslash, non-ASCII, plain names making the TXT value 254/255/256 bytes, 255-byte value full of backslashes with a space} plus n copies (n in 1,28,29,30,31,58,59,60; thorough also 87,88) of each shape, built by the real build_query_response and decoded by the real parser and by hickory; then every single-bit flip, 0x00/0xff/0xc0 overwrite and truncation of 13 representative packets through the real parser. Non-trivial = distinct lists with at least one advertised address, and distinct mutated packets that the parser rejects or that change the decoded peers.",
+    rule: "every address list of length <= 3 (quick) / <= 4 (thorough) over 12 address shapes {ip4/tcp, ip6/udp/quic-v1, dns4 plain, dns4 with space, with quote, with backslash, with space+quote+backslash, non-ASCII, plain names making the TXT value 254/255/256 bytes, 255-byte value full of backslashes with a space} plus n copies (n in 1,28,29,30,31,58,59,60; thorough also 87,88) of each shape, built by the real build_query_response and decoded by the real parser and by hickory; then every single-bit flip, 0x00/0xff/0xc0 overwrite and truncation of 13 representative packets through the real parser; then every byte string of length 0..3 (thorough 0..4) over {\", \\, =, d, n, s, a, r, /, space, 0x00, 0xff} as TXT character-string (alone, behind `dnsaddr=`, glued before/behind/quoted around a valid value, and as extra string next to valid ones) in a hand-built well-formed response through the real parser. Non-trivial = distinct lists with at least one advertised address, and distinct mutated packets that the parser rejects or that change the decoded peers.",
     explanation: "Complete enumeration (E3) over the stated alphabet; decoded multiset compared with the advertised multiset; packet size checked; parser panics caught.",
     assumptions: &["12 address shapes; DNS names without '/'", "peer name label is random: drawn from the entropy shim with a constant seed", "hickory-proto trusted as independent DNS reader"],
 };
@@ -189,7 +189,12 @@ fn run_inner(ctx: &Ctx) -> Outcome {
     let mut out = Outcome::default();
     if let Some(c) = &ctx.replay {
         out.evaluations = 1;
-        if c["kind"] == "bytes" {
+        if c["kind"] == "txt" {
+            let strings: Vec<Vec<u8>> = serde_json::from_value(c["strings"].clone()).unwrap_or_default();
+            if let Err(m) = txt_case(&strings) {
+                out.violation(mc::bfs::signature_of(&m), m, c.clone());
+            }
+        } else if c["kind"] == "bytes" {
             let bytes: Vec<u8> = serde_json::from_value(c["bytes"].clone()).unwrap_or_default();
             if let Err(p) = mc::catch(|| Config::verif_parse_packet(&bytes, from_addr())) {
                 let loc = mc::shim::last_panic_loc().unwrap_or_default();
@@ -259,5 +264,136 @@ fn run_inner(ctx: &Ctx) -> Outcome {
     if out.get("mutants_rejected") == 0 || out.get("mutants_parsed_as_response") == 0 {
         out.machinery("vacuity: mutations never produced both a rejected and an accepted packet");
     }
+    // ---- structured enumeration of TXT character-strings inside a well-formed response
+    let alpha: &[u8] = &[b'"', b'\\', b'=', b'd', b'n', b's', b'a', b'r', b'/', b' ', 0x00, 0xff];
+    let maxlen = ctx.tier.pick(3, 4);
+    let mut smalls: Vec<Vec<u8>> = Vec::new();
+    enumerate::sequences_upto(alpha.len(), maxlen, |idx| smalls.push(idx.iter().map(|i| alpha[*i]).collect()));
+    let valid = format!("dnsaddr=/ip4/10.0.0.1/tcp/4001/p2p/{}", peer(1).to_base58()).into_bytes();
+    let valid_other = format!("dnsaddr=/ip4/10.0.0.2/tcp/4001/p2p/{}", peer(2).to_base58()).into_bytes();
+    let mut txt_cases: Vec<Vec<Vec<u8>>> = Vec::new();
+    for sm in &smalls {
+        txt_cases.push(vec![sm.clone()]); // the string alone
+        txt_cases.push(vec![[b"dnsaddr=".as_slice(), sm].concat()]); // behind the expected prefix
+        if sm.len() <= 2 {
+            txt_cases.push(vec![[valid.as_slice(), sm].concat()]); // glued to a valid value
+            txt_cases.push(vec![[sm.as_slice(), &valid].concat()]);
+            txt_cases.push(vec![[b"\"".as_slice(), &valid, sm].concat()]); // quoted forms
+            txt_cases.push(vec![valid.clone(), sm.clone()]); // several strings in one TXT record
+            txt_cases.push(vec![sm.clone(), valid.clone()]);
+            txt_cases.push(vec![valid.clone(), sm.clone(), valid_other.clone()]);
+        }
+    }
+    let mut with_addr = 0u64;
+    let mut without_addr = 0u64;
+    for (k, strings) in txt_cases.iter().enumerate() {
+        out.evaluations += 1;
+        match txt_case(strings) {
+            Ok(n) => {
+                if n > 0 {
+                    with_addr += 1;
+                    out.nontrivial(&format!("txt{strings:?}"));
+                } else {
+                    without_addr += 1;
+                }
+                if k % 1999 == 7 {
+                    out.sample(json!({"kind": "txt", "strings": strings.iter().map(|s| String::from_utf8_lossy(s).to_string()).collect::<Vec<_>>(), "addresses_extracted": n}));
+                }
+            }
+            Err(m) => {
+                out.nontrivial(&format!("txt{strings:?}"));
+                out.violation(mc::bfs::signature_of(&m), m, json!({"kind": "txt", "strings": strings}));
+            }
+        }
+    }
+    out.count("txt_cases_with_address_extracted", with_addr);
+    out.count("txt_cases_without_address", without_addr);
+    if with_addr == 0 || without_addr == 0 {
+        out.machinery("vacuity: structured TXT enumeration never produced both an extracted address and a discarded string");
+    }
     out
+}
+
+/// A well-formed mDNS response: PTR answer `_p2p._udp.local` -> N and one additional TXT record owned by N
+/// whose rdata is the given sequence of character-strings (written here byte by byte, independent
+/// of the crate's builder).
+fn txt_packet(strings: &[Vec<u8>]) -> Vec<u8> {
+    fn qname(out: &mut Vec<u8>, name: &str) {
+        for l in name.split('.') {
+            out.push(l.len() as u8);
+            out.extend_from_slice(l.as_bytes());
+        }
+        out.push(0);
+    }
+    let mut o = Vec::new();
+    o.extend_from_slice(&[0x12, 0x34, 0x84, 0x00, 0, 0, 0, 1, 0, 0, 0, 1]);
+    qname(&mut o, "_p2p._udp.local");
+    o.extend_from_slice(&[0x00, 0x0c, 0x00, 0x01, 0, 0, 0, 120]);
+    let mut n = Vec::new();
+    qname(&mut n, "verifpeername.local");
+    o.extend_from_slice(&(n.len() as u16).to_be_bytes());
+    o.extend_from_slice(&n);
+    o.extend_from_slice(&n);
+    o.extend_from_slice(&[0x00, 0x10, 0x80, 0x01, 0, 0, 0, 120]);
+    let mut rd = Vec::new();
+    for s in strings {
+        rd.push(s.len() as u8);
+        rd.extend_from_slice(s);
+    }
+    o.extend_from_slice(&(rd.len() as u16).to_be_bytes());
+    o.extend_from_slice(&rd);
+    o
+}
+
+/// reference reading of one character-string: optional surrounding quotes, `dnsaddr=` prefix,
+/// multiaddr ending in /p2p/<peer>
+fn reference_decode(cs: &[u8]) -> Option<(Multiaddr, libp2p_identity::PeerId)> {
+    let inner: &[u8] = if cs.first() == Some(&b'"') {
+        if cs.len() < 2 || cs.last() != Some(&b'"') {
+            return None;
+        }
+        &cs[1..cs.len() - 1]
+    } else {
+        cs
+    };
+    let rest = inner.strip_prefix(b"dnsaddr=")?;
+    let mut a: Multiaddr = std::str::from_utf8(rest).ok()?.parse().ok()?;
+    match a.pop() {
+        Some(Protocol::P2p(id)) => Some((a, id)),
+        _ => None,
+    }
+}
+
+/// Ok(number of extracted addresses) or the violation
+fn txt_case(strings: &[Vec<u8>]) -> Result<usize, String> {
+    if strings.iter().any(|s| s.len() > 255) {
+        return Ok(0);
+    }
+    let pkt = txt_packet(strings);
+    let shown: Vec<String> = strings.iter().map(|s| String::from_utf8_lossy(s).to_string()).collect();
+    if let Err(e) = hickory_proto::op::Message::from_vec(&pkt) {
+        return Err(format!("HARNESS structured packet not well-formed :: {shown:?}: {e}"));
+    }
+    let r = match mc::catch(|| Config::verif_parse_packet(&pkt, from_addr())) {
+        Ok(r) => r,
+        Err(p) => {
+            let loc = mc::shim::last_panic_loc().unwrap_or_default();
+            return Err(format!("parse-panic-on-txt-string at {loc} :: TXT character-strings {shown:?} ({strings:?}) in a well-formed response: {p}"));
+        }
+    };
+    let peers = match r {
+        Ok(Some(p)) => p,
+        other => return Err(format!("well-formed-response-not-parsed :: TXT character-strings {shown:?}: parser answered {other:?}")),
+    };
+    let reference: Vec<(Multiaddr, libp2p_identity::PeerId)> = strings.iter().filter_map(|s| reference_decode(s)).collect();
+    let mut n = 0;
+    for (id, addrs, _) in &peers {
+        for a in addrs {
+            n += 1;
+            if !reference.iter().any(|(ra, rid)| ra == a && rid == id) {
+                return Err(format!("address-extracted-beyond-reference :: TXT character-strings {shown:?}: extracted {a} for {id}, which the reference decoder does not find"));
+            }
+        }
+    }
+    Ok(n)
 }
